@@ -309,6 +309,28 @@ PROPS = {
                        dict(build="tsan", nshards=8, parallel=2, scale=0.2), dict(build="miri", nshards=16, timeout=3000, miriflags="-Zmiri-many-seeds=0..8")),
         min_evaluations=300,
     ),
+    "C29": dict(
+        technique="many short histories on real threads with an event log recorded at the client boundary (submit call/return, "
+                  "task start/end, shutdown call/return, await call/return) and an offline checker; failpoints behind the "
+                  "verif_hooks feature inject delays between the pool's critical sections (none / random / targeted at the "
+                  "hand-over to a lingering worker); Miri (deadlock and data-race detection, several schedule seeds) and "
+                  "ThreadSanitizer on the same workload; quiescence-based deadlock watchdog natively",
+        rule="histories: 0-2 permanent workers, linger 0 / 200 us / 1 ms / 5 ms, 1-4 submitters x 1-6 tasks using submit and "
+             "submit_or_spawn, tasks of 0-300 us, submit spacing around the linger timeout, ThreadPool::shut_down before "
+             "ThreadGroup::shut_down in 1/3, shutdown racing the submitters in 1/3, one submission after await returned. "
+             "Checked: accepted => exactly one start; rejected => none; all accepted tasks ended before await_shutdown "
+             "returned; submissions after shut_down returned are rejected; no task event after await returned. "
+             "distinct = (configuration, failpoint policy, order of event kinds) = distinct interleavings observed",
+        assumptions=COMMON_ASSUMPTIONS + [
+            "delays are injected only where a thread can really be pre-empted (inside a critical section a delay only widens a window that exists anyway)",
+            "native deadlock verdict: a history that does not finish in 20 s is a violation only if the process is quiescent "
+            "(no CPU time and no events for 6 s, five times every timeout involved); otherwise inconclusive"],
+        quick=plans(dict(build="dbg", nshards=16), dict(build="miri", nshards=4, timeout=900)),
+        thorough=plans(dict(build="dbg", nshards=16), dict(build="rel", nshards=16), dict(build="tsan", nshards=8, parallel=4, scale=0.1),
+                       dict(build="miri", nshards=16, timeout=3400, miriflags="-Zmiri-many-seeds=0..4")),
+        required_hook_hits=["pool.submit_or_spawn.accepted", "pool.worker.timed_out", "pool.worker.loop_top"],
+        min_evaluations=2000,
+    ),
     "C14": dict(
         technique="differential execution against an independent RFC 1035 §4.1.4 decoder; panic monitor; Miri/ASan on the same workload",
         rule="exhaustive: every buffer of length <= 5 over the 12 significant octets {0,1,2,3,63,64,0x80,0xbf,0xc0,0xc1,0xff,'a'} "
